@@ -9,6 +9,7 @@ import LyModel.Valid.LemmasPerm
 import LyModel.Valid.FullUniq
 import LyModel.Valid.XpValid
 import LyModel.Valid.XpSpec
+import LyModel.Valid.XpWhenDec
 /-! driver ops of component `valid` (C02, C07): see harness/api_val.c and harness/api_norm.c for the protocol -/
 namespace LyModel.Valid.Drv
 open LyModel LyModel.Tree
@@ -109,6 +110,22 @@ def handle (op : String) (args : List String) : String :=
       | some on, some f, some C =>
         let ks := violationsX X C (VOpts.ofNat on) (canon X.base (heightL f + 1) (freshL X.base f))
         "ok " ++ toString ks.eraseDups.length ++ " " ++ " ".intercalate (ks.eraseDups.map (·.name))
+      | _, _, none => "err BadSchema"
+      | _, _, _ => "err BadTree"
+  | "specw", [dsl, xdsl, opts, dump] =>
+    -- `specx` for schemas with `when` (Props/C02Xpath.lean, `validate_ok_iff_valid_when_decidable`): the violated families of
+    -- `violationsX`, then `|` and three bits: the class condition `whenNoTouchB` on the accessible tree of the specification, whether
+    -- every `when` of that tree holds (`whenAllHold`), and whether the model's `when` phase removes an implicit node (model only)
+    withX dsl xdsl fun X =>
+      match opts.toNat?, forestOfHex X.base dump, (Hex.dec xdsl).bind parseXCons with
+      | some on, some f, some C =>
+        let o := VOpts.ofNat on
+        let t := canon X.base (heightL f + 1) (freshL X.base f)
+        let ks := violationsX X C o t
+        let acc := rfcComplete X o t
+        "ok " ++ toString ks.eraseDups.length ++ String.join (ks.eraseDups.map (" " ++ ·.name)) ++ " | " ++
+          b01 (whenNoTouchB X C.whens acc) ++ " " ++ b01 (whenAllHold (xpBool C.mask X.base) X C.whens acc) ++ " " ++
+          b01 (!(whenPhase X C o (preFinal X o t)).2.evs.isEmpty)
       | _, _, none => "err BadSchema"
       | _, _, _ => "err BadTree"
   | "opsvariant", [dsl, xdsl] =>
